@@ -29,16 +29,16 @@ MAPS = ["lower", "per-record", "per-letter", "per-letter", "mixed-upper-lower-ha
 
 def cases(tier, seed):
     out = []
-    n = 20 if tier == "quick" else 800
+    n = 20 if tier == "quick" else 3000
     out += [dict(c, kind="asm") for c in _embedded.assembly_cases(seed, n * len(gen.enzyme_names()), features=False, max_chain=4)]
     types = [(a, b) for a in C03.ALPHA for b in C03.ALPHA]
     rng = gen.rng_for(seed, PROP, "graphs")
-    for j in range(0, 600 if tier == "quick" else 30000, 20):
+    for j in range(0, 600 if tier == "quick" else 120000, 20):
         sets = []
         for _ in range(20):
             sets.append({"v": list(rng.choice(types)), "mods": [list(rng.choice(types)) for _ in range(rng.randint(1, 3))]})
         out.append({"kind": "graphs", "sets": sets, "seed": seed, "j": j})
-    per = 24 if tier == "quick" else 800
+    per = 24 if tier == "quick" else 3000
     for c in gen.concrete_kit_classes():
         out.append({"kind": "typing", "cls": gen.class_name(c), "seed": seed, "count": per})
     for e in gen.enzyme_names():
